@@ -95,7 +95,7 @@ func init() {
 	Register(&ClusterProp{
 		Id: "C08",
 		RuleText: "each run: reference replica (never crashed) + 1-3 victims executing the same PRNG-built history; victims are killed at PRNG-chosen ABCI boundaries " +
-			"(before/after BeginBlock, each DeliverTx, EndBlock, Commit; also during handshake replay and catch-up, repeatedly) and restarted from a byte copy of their open data directory through the real Handshaker. " +
+			"(before/after BeginBlock, each DeliverTx, EndBlock, Commit; also during handshake replay and catch-up, repeatedly; and, as `bounce`, between two blocks with an immediate restart) and restarted from a byte copy of their open data directory through the real Handshaker. " +
 			"Oracles: Info after reopen == victim's own last completed commit; handshake completes; every (re)executed block attempt equals the reference's results (code, data, gas, events of every transaction; validator updates; app hash); victims reach the tip once faults stop. " +
 			"Non-trivial: >=1 crash strictly inside a block followed by a handshake replay of a block with >=1 successful transaction; distinct = distinct fingerprints.",
 		MakeSetup: func(rng *rand.Rand, tier string, seed uint64) *Setup {
@@ -127,7 +127,7 @@ func init() {
 			su.MaxTx = 10
 			rate := []float64{0.01, 0.02, 0.04}[rng.Intn(3)]
 			su.Policy = &NoisePolicy{Rng: rng, Sess: su.Sess, CheckRate: 0.02, CrashRate: rate, ReplayCrashRate: rate * 2, MaxCrashes: 12}
-			su.Between = RestartAndJoinBetween(0.6, 0.03, nv+3, k.NumValidators)
+			su.Between = chainBetween(RestartAndJoinBetween(0.6, 0.03, nv+3, k.NumValidators), BounceVictimBetween(0.15))
 			su.PlanHook = chainPlan(su.PlanHook, AbsentHook(0.05))
 			return su
 		},
